@@ -13,7 +13,7 @@ import srvcase
 from common import enc, dec, gN, gZ, gbool, glist, canon
 
 EPOCH = clicase.EPOCH
-SERVER_EDITS = ["add_type", "remove_type", "add_attr", "remove_attr"]
+SERVER_EDITS = ["add_type", "remove_type", "add_attr", "remove_attr", "remove_chain"]
 CLIENT_EDITS = ["unmap_attr", "map_attr", "unmap_type", "map_type"]
 
 
@@ -26,6 +26,12 @@ def gen_case(rng, opts=None):
             if a not in t["attrs"]:
                 t["attrs"].append(a)
                 t["mapping"][a] = ("plain", "c_" + a)
+    if rng.random() < 0.5:
+        # declaration order must not coincide with the alphabetical order of the type names
+        m = dict(zip(["Ta", "Tb", "Tc", "Td"], ["Tz", "Ty", "Tx", "Tw"]))
+        for t in cfg["types"]:
+            t["name"] = m[t["name"]]
+            t["fks"] = {a: m[p] for a, p in t["fks"].items()}
     full = copy.deepcopy(cfg)                    # the universe: every type with every attribute
     pool = rng.sample([1, 2, 3, 4], rng.randint(2, 3))
 
@@ -70,6 +76,18 @@ def gen_case(rng, opts=None):
                 t = rng.choice(cand)
                 typesB.discard(t)
                 edits.append(("remove_type", t))
+        elif e == "remove_chain":
+            # a leaf type and its parent leave together (the parent has no other child)
+            for t in full["types"]:
+                par = list(t["fks"].values())
+                if t["name"] in leaf and len(par) == 1 and par[0] in typesA and t["name"] in typesA and par[0] in typesB \
+                        and t["name"] in typesB and len(typesB) > 2 \
+                        and not any(par[0] in u["fks"].values() for u in full["types"] if u["name"] != t["name"]):
+                    typesB.discard(t["name"])
+                    typesB.discard(par[0])
+                    edits.append(("remove_type", t["name"]))
+                    edits.append(("remove_type", par[0]))
+                    break
         elif e == "add_attr":
             t = rng.choice(sorted(typesA & typesB))
             a = rng.choice(sorted(attrsA[t]))
@@ -347,6 +365,31 @@ def analyse(case, res):
         for a in attrs:
             if (e["objtype"], a) in added_a and i < first_sch:
                 out.append(("event-with-new-attribute-before-schema", f"offset {i + 1} {e['objtype']}.{a}"))
+    # 1b. every prefix of the bus is referentially closed, the removals of dropped types included
+    #     (children withdrawn before their parents)
+    fks = {t["name"]: t["fks"] for t in case["full"]["types"]}
+    pk1 = {t["name"]: t["pkey"] for t in case["full"]["types"]}
+    present = set()
+    hk = lambda k: tuple(k) if isinstance(k, (list, tuple)) else k
+    for i, e in enumerate(bus if not three else []):
+        if e["evcategory"] != "base" or e["eventtype"] not in ("added", "removed"):
+            continue
+        ident = (e["objtype"], hk(e["objpkey"]))
+        if e["eventtype"] == "added":
+            present.add(ident)
+            for a, ptype in fks.get(e["objtype"], {}).items():
+                pk = e["objattrs"].get(a)
+                if (ptype, hk(pk)) not in present:
+                    out.append(("stream-prefix-not-closed", f"offset {i + 1}: {ident} added before its parent {ptype} {pk}"))
+        else:
+            present.discard(ident)
+            for (ct, ck) in list(present):
+                for a, ptype in fks.get(ct, {}).items():
+                    if ptype == e["objtype"]:
+                        comps = ck if isinstance(ck, tuple) else (ck,)
+                        val = dict(zip(pk1[ct], comps)).get(a)
+                        if hk(val) == hk(e["objpkey"]):
+                            out.append(("stream-prefix-not-closed", f"offset {i + 1}: {ident} removed while {ct} {ck} still refers to it"))
     # 2. removed types: a 'removed' for every object the server had published
     live = {}
     for e in bus[:n1]:
@@ -434,7 +477,8 @@ def remap_gallina(case, res):
         old, new = rm["cdm_old"], rm["cdm_new"]
         pre, post = rm["pre"], rm["post"]
         applies = (not case.get("retention") and not pre["queue"] and not post["queue"] and not pre["exc"] and not post["exc"]
-                   and set(old) <= set(new) and all(old[l]["hermesType"] == new[l]["hermesType"] for l in old) and old != new)
+                   and set(old) <= set(new) and all(old[l]["hermesType"] == new[l]["hermesType"] for l in old) and old != new
+                   and all(c.get("out") == "ok" for c in rm["calls"]))     # the model is the healthy one: no failing handler
         if not applies:
             continue
         # names: every type and attribute of the universe, every local name of both mappings
